@@ -487,8 +487,8 @@ def check_accounting(scn, run, V, compare_model=True):
             if err is None or not isinstance(err, perr.PySmiError):
                 V('I6_failed_without_error', '%s failed but .error is %r' % (k, err))
                 continue
-            text_faulted = any(isinstance(src.get(k), str) and src.get(k) not in ('ok', 'absent')
-                               for src in scn['sources'])
+            text_faulted = any(isinstance(src.get(kk), str) and src.get(kk) not in ('ok', 'absent')
+                               for src in scn['sources'] for kk in [k] + list(file_modules(scn, k)))
             if text_faulted:
                 continue        # the module's own text defect is a legitimate cause too
             mine = [e for e in inj if (' %s ' % k) in (' ' + e.msg.replace(',', ' ') + ' ')
